@@ -176,7 +176,7 @@ package keepclient
 // getOrHead: a reader is returned only for a 200 answer, wrapped in a
 // HashCheckingReader over a fresh MD5 that checks locator[0:32]; the size
 // returned agrees with the size hint and with Content-Length.
-//@ func KeepClient.getOrHead property C03 safety -bounds
+//@ func KeepClient.getOrHead property C03,C12 safety -bounds
 //@   requires len(locator) >= 32
 //@   ghost e0 int64 = 0
 //@   at assign triesRemaining#1: set e0 = expectLength
